@@ -17,7 +17,7 @@ TECHNIQUE = ("Coq proofs over an executable model of sm2/p256.go and GenerateKey
              "(affine spec, Jacobian formula lemmas over any field by `field`, total PointAdd/Sub/Double, wNAF recoding, comb evaluation, "
              "table checked by vm_compute), constants re-read from the source by the translator; model tied to /repo by differential runs "
              "of the extracted model (black box: public API; white box: 9-limb functions through hooks) and a python affine oracle")
-LEVEL_TEXT = ("Theorems in Coq (Props/C03.v, 36): the generated parameters are those of GM/T 0003.5, G on the curve, RInverse*2^257 = 1, "
+LEVEL_TEXT = ("Theorems in Coq (Props/C03.v, 40): the generated parameters are those of GM/T 0003.5, G on the curve, RInverse*2^257 = 1, "
               "Zero31/Carry/Factor limb constants, the 2x15 comb table entries are [sum b_i 2^(64i+32h)]G; Jacobian doubling / mixed / full "
               "addition formulas as the code computes them represent the affine law over ANY field (incl. Z=0, P=-Q, equal-input cases); "
               "for ALL pairs of curve points incl. infinity (0,0), equal and opposite: Add/Double = group law; IsOnCurve = curve equation for all "
@@ -28,21 +28,24 @@ LEVEL_TEXT = ("Theorems in Coq (Props/C03.v, 36): the generated parameters are t
               "wrap-around): for all operands within the bound invariant 'loose' (limb < 2^30 / 2^29) Add, Sub (+ReduceCarry, Zero31), the "
               "schoolbook products, FromBig/ToBig and ReduceDegree (unpack, every path of both elimination-step shapes for every window within the "
               "loop's bound invariant, repack) never wrap, return loose limbs, and compute a+b, a-b, a*b/R mod p; the old (pre-a3cb9c3) "
-              "elimination step is refuted on the D36 window; the limb functions commute with the abstraction sm2P256ToBig, so straight-line "
-              "programs over them (PointDouble instantiated) refine the F_p-level model the point theorems are about. "
+              "elimination step is refuted on the D36 window; the limb functions commute with the abstraction sm2P256ToBig; the point functions "
+              "(PointDouble/AddMixed/Add/Sub as programs over them, decisions on ToBig values), the constant-time selections on uint32 masks "
+              "(CopyConditional, SelectAffinePoint, SelectJacobianPoint) and the ScalarMult / ScalarBaseMult loops are defined at the limb level and "
+              "proved equal (under ToBig) to the F_p-level model, so IsOnCurve, Add, Double, ScalarMult, ScalarBaseMult, GenerateKey on the "
+              "limb pipeline satisfy the property theorems: nothing between the public API and the affine result is F_p-level by specification. "
               "Premises, explicit in each statement: prime p for inverses; SM2Facts (p, n prime, associativity, G of order n) for the scalar "
               "multiplications and the table. The extracted models (F_p level and limb level) are run on the same inputs as /repo; limb results "
               "must agree word for word.")
-LEVEL_NOTE = ("Proved at the limb level: sm2P256Add/Sub/ReduceCarry/Mul/Square/ReduceDegree/FromBig/ToBig for all loose operands (no assumption "
-              "about reachable values: the loop's bound invariant is proved). NOT proved at the limb level: the point functions as whole Go "
-              "functions on limbs - they are straight-line programs over the proved operations (general refinement theorem, instantiated for "
-              "sm2P256PointDouble only) plus big.Int comparisons and constant-time selections by masks (sm2P256CopyConditional, "
-              "sm2P256SelectAffinePoint/JacobianPoint), which are modelled as if-then-else at the F_p level and tied by the differential run; "
-              "sm2P256FromBig/ToBig are hand models of the math/big calls. The tie of Gen/P256Limbs.v to p256.go is the translator "
-              "(a partial evaluator over a small Go subset, ~600 lines, trusted) plus word-for-word equality with /repo on every white-box case. "
-              "Primality of p and n, associativity and the order of G are premises (SM2Facts), never assumed globally; ScalarMult additionally "
-              "needs [1]P..[6]P finite (true for every finite SM2 point, cofactor 1; proved for all [j]G). big.Int (SetBytes, Mod, ModInverse incl. "
-              "z=0, Bit, BitLen, Rsh, Bytes) and io.ReadFull are modelled contracts. Timing is out of scope. "
+LEVEL_NOTE = ("Proved at the limb level: sm2P256Add/Sub/ReduceCarry/Mul/Square/ReduceDegree (mechanically translated from the Go AST) for all loose "
+              "operands, and on top of them the point functions, mask selections, scalar-multiplication loops and public methods (hand-written limb-level "
+              "models in coq/EC/LimbPoint.v, LimbSelect.v, LimbScalar.v, LimbScalarMult.v, LimbAPI.v, which call the translated field functions). "
+              "What ties these hand-written limb-level models to p256.go is the differential run: exact words for the point functions (white box), exact "
+              "results for the public methods (black box, every third scalar-multiplication case); the field functions are tied by the translator plus "
+              "word-for-word equality. sm2P256FromBig/ToBig and the decisions of PointAdd are hand models of the math/big calls. "
+              "The translator (partial evaluator over a small Go subset, ~600 lines) is trusted. "
+              "Primality of p and n, associativity and the order of G are premises (SM2Facts; proved elsewhere in coq/Prime, coq/SM2), never assumed "
+              "globally; ScalarMult additionally needs [1]P..[6]P finite (true for every finite SM2 point, cofactor 1; proved for all [j]G). "
+              "big.Int (SetBytes, Mod, ModInverse incl. z=0, Bit, BitLen, Rsh, Bytes) and io.ReadFull are modelled contracts. Timing is out of scope. "
               "Found while building: the ReduceDegree borrow defect D36 (fixed in /repo a3cb9c3; regression inputs in corpus/c03; "
               "Props: C03_limb_D36_old_step_refuted).")
 TRUSTED_BASE = [
@@ -238,12 +241,22 @@ def same(f, io, mo):
     if op == "FT":
         return len(io) == 2 and len(mo) == 3 and io[1] == mo[1] == mo[2]
     if op in PT_OPS:
-        if len(io) != len(mo):
+        # model line: ok <values by the F_p-level model> L <exact words by the limb-level point function>
+        if "L" not in mo:
+            return False
+        k = mo.index("L")
+        vals, lim = mo[1:k], mo[k + 1:]
+        if len(vals) != len(io) - 1 or len(lim) != len(io) - 1:
             return False
         try:
-            return all(fe(a) == int(b, 16) for a, b in zip(io[1:], mo[1:]))
+            return (all(fe(a) == int(b, 16) for a, b in zip(io[1:], vals)) and
+                    all(_limbs(a) == _limbs(b) for a, b in zip(io[1:], lim)))
         except ValueError:
             return False
+    if "L" in mo:
+        # public methods: F_p-level model result, then the same method on the limb-level pipeline; all three must agree
+        k = mo.index("L")
+        return io == mo[:k] and io == mo[k + 1:]
     return io[1:] == mo[1:]
 
 
